@@ -33,6 +33,11 @@ def ref_glob(pattern: str, entry: str) -> bool:
 
 
 def lists(ref, tier):
+    if tier == "c20":
+        leaves = datagen.leaf_universe(ref, n_versions=1, per_key=1)
+        full = datagen.closure_list(ref, leaves)
+        return {"hierarchy+near-miss+junk": (full + datagen.near_misses(ref, leaves), {}), "leaves+extrapolate": (leaves, {"do_extrapolate": True}),
+                "small": (datagen.closure_list(ref, leaves[:: max(1, len(leaves) // 6)]), {})}
     leaves = datagen.leaf_universe(ref, n_versions=3 if tier == "thorough" else 2)
     full = datagen.closure_list(ref, leaves)
     nm = datagen.near_misses(ref, leaves)
